@@ -59,7 +59,9 @@ def flag (s : String) : Option Bool :=
   if s = "1" then some true else if s = "0" then some false else none
 
 def showUpload (raw : Bytes) (up : Upload) : String :=
-  s!"enc={hexOfBytes up.enc} data={if up.data = raw then "raw" else "zenc"}"
+  -- (compared by length: the toy encoder changes the length, and list equality is not
+  -- tail-recursive — multi-megabyte payloads would exhaust the stack)
+  s!"enc={hexOfBytes up.enc} data={if up.data.length = raw.length then "raw" else "zenc"}"
 
 def doExt (ws : List String) : Option String := do
   let cfgOn ← (kv ws "cfg") >>= flag
